@@ -241,9 +241,11 @@ package db
 //@   requires wf_payload(pl) && db != nil
 //@   ensures [len] err == nil ==> len(r0) == pl.Length
 //@   ensures [inline] err == nil && pl.Overflow == 0 ==> r0 == pl.Payload[:pl.Length]
+//@   ensures [independent] err == nil ==> reg(r0) == reg(pl.Payload) || fresh(r0)
 //@   trusted-ensures [token] err == nil ==> fullpl(r0, pl)
 //@   loop 1 invariant 0 <= len(to) && len(to) <= cap(to) && cap(to) <= 1099512676352 && ule(off(to), 4611686018427387904)
 //@   loop 1 invariant pl.Overflow == 0 ==> overflow == 0 && to == pl.Payload
+//@   loop 1 invariant reg(to) == reg(pl.Payload) || fresh(to)
 //@   loop 1 decreases pl.Length - len(to)
 
 // User-level callback of Table.Scan: the rowid and the decoded record of item `pos`.
